@@ -58,11 +58,9 @@ impl OperationTransformVisitor<'_> {
             return;
         }
 
-        if status != Status::NotModified {
+        // count only the operations that have been instrumented, not the inspected ones
+        if status == Status::Modified {
             self.transform_status.status = status;
-        }
-
-        if self.transform_status.status == Status::Modified {
             self.transform_status.telemetry.inc(tag);
         }
     }
@@ -151,7 +149,8 @@ impl VisitMut for OperationTransformVisitor<'_> {
                 );
                 if transform_result.is_modified() {
                     expr.map_with_mut(|e| transform_result.expr.unwrap_or(e));
-                    opv_with_child_ctx.update_status(transform_result.status, transform_result.tag);
+                    // do not update status yet: the null guard is not an instrumented operation, the
+                    // method calls inside it update the status when they are replaced
                 }
 
                 expr.visit_mut_children_with(opv_with_child_ctx);
